@@ -163,7 +163,6 @@ def check_dict(acc, calc, sd, sup_n, kind, label, warned=False):
                             if np.array_equal(img, np.array(s.occ)): can = True; break
                     if can: break
                 acc.check(not can, 'missing-mapping-only-when-no-state-maps-onto-the-endpoint', '%s %s %s' % (label, tag, nm), sig=('nomap', ttype))
-                acc.check(kind != 'interstitial', 'interstitial-endpoints-always-map-to-a-state', tag, sig='imap')
                 continue
             k, g, mapping = ent
             ok = k in sd['states']
